@@ -90,7 +90,7 @@ PROPERTIES = {
     "C12": {
         "rule": "rapidcheck: closed mesh (6 families + ellipsoids with a unique longest axis), placed by a random rigid motion (up to 1000 "
                 "sizes from the origin, length units from nanometre-in-metres (3e-9) over um and unit scale to 1e4), random renumbering of nodes/triangles, random per-triangle winding flips, "
-                "0-3 unused nodes appended; re-evaluated in a second frame (another rigid motion + renumbering + winding mix) and after a "
+                "0-3 unused nodes appended; in 1/3 of the cases real edge collapses / splits then leave unused node and face slots and volume / area / centroid / bounding box are judged again on that cell; re-evaluated in a second frame (another rigid motion + renumbering + winding mix) and after a "
                 "uniform scaling lambda. Non-trivial = the input contained inward-wound triangles AND D/size >= 10; distinct = hash of the case.",
         "min_nontrivial": 100,
         "assumptions": ["volume tolerance 32 F eps (D+s)^3 (error model of the origin-anchored formula), area/centroid tolerances "
